@@ -308,6 +308,8 @@ def jobs(tier, seed):
         # step parameters converted to values of other Python types (numbers that JSON has no literal for, dates, objects)
         "typed-args": ([F([S(2), S(1)])], {"out_dom": {"*": [0, 1]}, "undef": False,
                                            "typed_values": ["str", "int", "float", "Decimal", "Fraction", "complex", "date", "object", "list"]}),
+        # a hook raises somewhere (k-th hook call, k symbolic): the event protocol stays well formed
+        "hookfault": ([F([S(2, tags=["t1"]), S(1)])], {"out_dom": {"*": [0, 1]}, "undef": False, "hooks": True, "fault": True}),
         "hook-skip": ([F([S(1), S(2), R([S(1)], bg=1)])], {"out_dom": {"*": [0, 1]}, "undef": False}),
     }
     if tier == "thorough":
